@@ -11,7 +11,14 @@ type Flow struct {
 	ID      int      `json:"id"`
 	URL     string   `json:"url"`
 	Methods []string `json:"methods,omitempty"`
+	// what the flow's processors REQUIRE from the proxy (suite reload only):
+	// "" nothing, "body" the body of the message (a DataSanitation
+	// processor), "capture" request capture (a Retry processor), "both"
+	Req string `json:"requires,omitempty"`
 }
+
+func (f Flow) needsBody() bool    { return f.Req == "body" || f.Req == "both" }
+func (f Flow) needsCapture() bool { return f.Req == "capture" || f.Req == "both" }
 
 // Probe is one (method, URL) transaction and what the implementation did.
 type Probe struct {
